@@ -770,6 +770,7 @@ impl<'u> Sem<'u> {
                 }
                 (self.fill(&to, &mut leaves.into_iter())?, to)
             }
+            Ex::MCall(..) => return unsupported("method call"),
             Ex::Call(name, targs, args) => self.call(name, targs, args)?,
             Ex::Index(..) | Ex::Member(..) => {
                 if let Some(p) = self.place(e)? {
